@@ -21,7 +21,21 @@ RULE = ("cases = (collider, direction) pairs drawn from one PRNG: lattice stream
 EXPLANATION = ("the support theorems are proved for the Lean model at exact reals; this run compares the model "
                "(Float and exact Rat arithmetic) with the real collider classes on branch id, support value, support "
                "point and cached mesh vertex index, and runs an oracle that does not use the model on the real code")
-PARTIAL = {}  # filled in by the lead
+PARTIAL = {
+    "hillClimb_global / mesh_call / mesh_history / mesh_history_independent (global part)":
+        "global optimality of hill climbing rests on the explicit hypothesis `Unimodal tau tau' d mesh` (every vertex "
+        "more than tau' below the best has a neighbour better by more than PROJECTION_LENGTH_EPSILON); it is NOT "
+        "derived from convexity of the mesh. Its decidable form `unimodalCheck` (proved sound: unimodal_of_check) is "
+        "evaluated in Lean by the driver (C03.unimodal; exactly, at Rat, on lattice meshes; at Float with "
+        "tau' = 1e-9*L*max(1,|d|) on general poses) for every mesh/direction of the correspondence run; termination, "
+        "local optimality, membership and the KeyError precondition are proved without it",
+    "neighbour order of `connections`":
+        "the iteration order of the Python sets is taken from the implementation (parameter of the model); all mesh "
+        "theorems hold for every order",
+    "floating point":
+        "theorems are at exact reals; rounding is covered only by the correspondence run (tolerance 1e-9*L) and the "
+        "oracle on the real code",
+}
 ASSUMPTIONS = [
     "iteration order of a Python set of ints (neighbour order inside MeshHillClimbingSupportFunction.connections) is "
     "taken from the implementation and handed to the model; the theorems hold for every order",
@@ -42,7 +56,9 @@ MANIFEST = dict(
     text=("Lean theorems: for every shape of colliders.py the modelled support function returns a point of the shape's "
           "point set that maximises the projection on d (all sign-boundary branches included), first_vertex/center "
           "are members, Margin adds m*d/|d|, hill climbing terminates at a local maximum for every start index and "
-          "at the global one on unimodal (convex) meshes; the model is tied to the code by a correspondence harness "
+          "at the global one on unimodal (convex) meshes (precondition MeshWF and hypothesis Unimodal have decidable "
+          "forms wfCheck / unimodalCheck, proved sound and evaluated in Lean on every mesh of the run; __init__ is "
+          "proved to produce MeshWF data iff-style under the KeyError precondition); the model is tied to the code by a correspondence harness "
           "(branch ids, points, cached vertex index, F and exact Q arithmetic) and an independent oracle runs on the "
           "real code."),
     note=("trusted: Lean kernel + Mathlib, axioms propext/Classical.choice/Quot.sound; exact-real semantics; order of "
@@ -876,8 +892,9 @@ class Runner:
             for i, d in enumerate(job.dirs):
                 ctx.count(stream, key=m + ckey + " " + " ".join(enc_vec(d, "F")) + (" @%d" % i if not job.single else ""),
                           nontrivial=not (ident and axis_aligned(d)),
-                          sample={"stream": stream, "kind": spec["kind"], "line": ("C03.support %s %s %s" % (
-                              m, ckey, " ".join(enc_vec(d, "F"))))[:400]})
+                          sample=None if len(ctx.samples) >= 6 else {
+                              "stream": stream, "kind": spec["kind"], "line": ("C03.support %s %s %s" % (
+                                  m, ckey, " ".join(enc_vec(d, "F"))))[:400]})
                 mr = mres[i]
                 if mr.get("ok"):
                     ctx.branch(name, mr["branch"])
@@ -945,7 +962,8 @@ class Runner:
             ctx.extra["ties"] = ctx.extra.get("ties", 0) + 1
             bad = oracle_point(spec, d, pi, sweep=0)
             for b in bad:
-                ctx.fail("%s.support_function" % kind, {"spec": spec, "dirs": [d], "sweep_seed": 0}, b["observed"],
+                ctx.fail("%s.support_function" % ("Margin(%s)" % kind if spec["kind"] == "margin" else kind),
+                         {"spec": spec, "dirs": [d], "sweep_seed": 0, "at": 0}, b["observed"],
                          b["expected"], b["oracle"])
         dv = abs(float(np.dot(dd, arr(pm))) - float(np.dot(dd, arr(pi))))
         if dv > tp:
@@ -970,7 +988,7 @@ class Runner:
         ctx = self.ctx
         for m, cid in ids.items():
             text = out.get(cid, "bad missing")
-            ctx.count(stream + ":" + kind + ("" if m == "F" else ":Q"), key=m + fn + " ".join(toks_by_mode["F"]),
+            ctx.count(stream + ":" + kind + ("" if m == "F" else ":Q"), key=m + fn + " ".join(toks_by_mode.get("F") or toks_by_mode[m]),
                       nontrivial=True)
             msg = AUX_CMP[kind](ctx, text, m, impl, extra)
             if msg:
@@ -1044,7 +1062,71 @@ def cmp_meshbuild(ctx, text, mode, impl, extra):
     return None if got == want else "construction differs: impl=%s model=%s" % (want, got)
 
 
-AUX_CMP = {"boxfn": cmp_boxfn, "planebasis": cmp_planebasis, "normvec": cmp_normvec, "meshbuild": cmp_meshbuild}
+def cmp_meshwf(ctx, text, mode, impl, extra):
+    """`MeshData.wfCheck` (Lean, proved sound: meshWF_of_check) on the data the model climbs on; expected value is
+    recomputed here from the implementation's object: every shortcut vertex has an entry in `connections`"""
+    t = text.split()
+    if len(t) != 3 or t[0] != "ok":
+        return "model: %s" % text[:80]
+    ctx.branch("meshwf", t[1])
+    if int(t[1]) != impl["wf"]:
+        return "wfCheck=%s but implementation data well-formed=%s (shortcuts %s, keys %s)" % (
+            t[1], impl["wf"], impl["shortcuts"], impl["keys"])
+    if int(t[2]) != impl["first_idx"]:
+        return "first_idx: model %s implementation %s" % (t[2], impl["first_idx"])
+    return None
+
+
+def cmp_unimodal(ctx, text, mode, impl, extra):
+    """`unimodalCheck` (Lean, proved sound: unimodal_of_check): hypothesis of the global-optimality theorems"""
+    t = text.split()
+    if len(t) != 2 or t[0] != "ok":
+        return "model: %s" % text[:80]
+    ctx.branch("unimodal", t[1] + ("" if mode == "F" else ":Q"))
+    if t[1] != "1":
+        return ("hypothesis Unimodal(tau=PROJECTION_LENGTH_EPSILON, tau'=%r) of mesh_call/mesh_history does not hold "
+                "for this mesh and direction %s" % (extra["tau2"], extra["d"]))
+    return None
+
+
+AUX_CMP = {"boxfn": cmp_boxfn, "planebasis": cmp_planebasis, "normvec": cmp_normvec, "meshbuild": cmp_meshbuild,
+           "meshwf": cmp_meshwf, "unimodal": cmp_unimodal}
+
+
+def add_lean_mesh_checks(run, job, expect_wf=True):
+    """run the two Lean-verified decidable checks on a mesh job: wfCheck on the constructed data (precondition
+    MeshWF of every mesh theorem) and, for well-formed meshes, unimodalCheck per direction (hypothesis of the
+    global statements): exactly (Q) with tau' = tau on exact lattice meshes, at Float with tau' = the property's
+    projection tolerance otherwise"""
+    from distance3d.mesh import PROJECTION_LENGTH_EPSILON as TAU
+    base, _ = base_of(job.spec)
+    if base["kind"] != "mesh":
+        return
+    try:
+        obj = build(base)
+    except Exception:  # noqa
+        return
+    sf = obj._support_function
+    keys = sorted(int(k) for k in sf.connections)
+    shortcuts = [int(x) for x in sf.shortcut_connections]
+    nv = len(arr(base["verts"]).reshape(-1, 3))
+    wf = int(all(sh in keys for sh in shortcuts) and all(k < nv for k in keys))
+    impl = {"wf": wf, "shortcuts": shortcuts, "keys": keys, "first_idx": int(sf.first_idx)}
+
+    def toks(m):
+        return enc_pose(pose_of(base), m) + enc_mesh_data(base, m) + mesh_conn_tokens(obj)
+    run.add_aux("meshwf", "C03.meshwf", {"F": toks("F")}, impl, job.seed(), job.stream)
+    if not wf:
+        return
+    m = "Q" if job.exact else "F"
+    seen = set()
+    for d in job.dirs:
+        if tuple(d) in seen or not any(d):
+            continue
+        seen.add(tuple(d))
+        tau2 = float(TAU) if job.exact else tol_proj(base, d)
+        run.add_aux("unimodal", "C03.unimodal", {m: toks(m) + [sc(tau2, m)] + enc_vec(d, m)}, None,
+                    job.seed(), job.stream, extra={"tau2": tau2, "d": list(d)})
 
 
 def add_boxfn(run, rng, stream, pose, half, d, exact):
@@ -1130,6 +1212,11 @@ def support_value(spec, d):
     d = arr(d)
     nd = vnorm(d)
     extra = sum(ms) * nd
+    return float(_support_value(base, k, d, nd) + extra)
+
+
+def _support_value(base, k, d, nd):
+    extra = 0.0
     if k == "sphere":
         return float(np.dot(arr(base["c"]), d)) + base["r"] * nd + extra
     if k == "disk":
@@ -1397,6 +1484,7 @@ def oracle_job(spec, dirs, sweep=200, seed=0, notes=None):
     out = []
     base, ms = base_of(spec)
     kind = base["kind"]
+    label = "Margin(%s)" % kind if ms else kind
     L = feature_L(spec)
     obj = build(spec)
     vals = []
@@ -1406,13 +1494,13 @@ def oracle_job(spec, dirs, sweep=200, seed=0, notes=None):
             continue
         r = impl_support(obj, d)
         if not r["ok"]:
-            out.append({"function": "%s.support_function" % kind, "at": i, "observed": r,
+            out.append({"function": "%s.support_function" % label, "at": i, "observed": r,
                         "expected": "a support point", "oracle": "no exception / NaN for a well-formed input"})
             vals.append(None)
             continue
         vals.append(float(np.dot(arr(d), arr(r["p"]))))
         for b in oracle_point(spec, d, r["p"], sweep, seed + i, notes):
-            b.update({"function": "%s.support_function" % kind, "at": i})
+            b.update({"function": "%s.support_function" % label, "at": i})
             out.append(b)
     if kind == "mesh":
         # history independence: same direction on a fresh object
@@ -1429,12 +1517,12 @@ def oracle_job(spec, dirs, sweep=200, seed=0, notes=None):
     for what, fn in (("first_vertex", fresh.first_vertex), ("center", fresh.center)):
         r = impl_point(fn)
         if not r["ok"]:
-            out.append({"function": "%s.%s" % (kind, what), "at": None, "observed": r, "expected": "a point",
+            out.append({"function": "%s.%s" % (label, what), "at": None, "observed": r, "expected": "a point",
                         "oracle": "no exception / NaN for a well-formed input"})
             continue
         mem = member(spec if not ms else base, r["p"], REL * L, vertex_ok=(what == "first_vertex"))
         if mem is False:
-            out.append({"function": "%s.%s" % (kind, what), "at": None, "observed": r["p"],
+            out.append({"function": "%s.%s" % (label, what), "at": None, "observed": r["p"],
                         "expected": "point of the set within %g" % (REL * L),
                         "oracle": "definition-level membership predicate"})
     return out
@@ -1501,7 +1589,7 @@ def targeted_boxfn(run, rng, b):
     add_boxfn(run, rng, "T", pose, [rng.choice(LAT_SIZE) for _ in range(3)], (R @ ld).tolist(), True)
 
 
-def unit_normals(rng, stream):
+def unit_normals(rng, stream, n=0):
     if stream == "L":
         out = [[1.0, 0, 0], [0, 1.0, 0], [0, 0, 1.0], [-1.0, 0, 0], [0, -1.0, 0], [0, 0, -1.0],
                [0.6, 0.8, 0], [0.8, 0.6, 0], [0, 0.6, 0.8], [0, -0.8, 0.6], [0.6, 0, 0.8], [-0.8, 0, 0.6],
@@ -1509,7 +1597,7 @@ def unit_normals(rng, stream):
                [0.6, -0.6, math.sqrt(0.28)], [0.0, 0.0, 0.0]]
         return [[float(x) for x in n] for n in out]
     out = []
-    for _ in range(12):
+    for _ in range(max(12, n // 3)):
         v = [rng.gauss(0, 1) for _ in range(3)]
         r = rng.random()
         if r < 0.2:
@@ -1535,7 +1623,7 @@ def add_aux_cases(run, rng, stream, n):
             spec = {"kind": "box", "pose": pose.tolist(), "size": half}
             d = gen_dirs(rng, "G", spec, 1)[0]
         add_boxfn(run, rng, stream, pose, half, d, exact and all(simple_dyadic(x) for x in d))
-    for nrm in unit_normals(rng, stream):
+    for nrm in unit_normals(rng, stream, n):
         add_planebasis(run, stream, nrm, stream == "L" and one_nonzero(nrm))
     for _ in range(max(4, n // 4)):
         v = lattice_dir(rng) if stream == "L" else general_dir(rng)
@@ -1640,7 +1728,8 @@ def check_unimodal(ctx, job):
             ctx.extra["unimodal_checked"] = ctx.extra.get("unimodal_checked", 0) + 1
             if best - vals[i] > TAU and not any(vals[j] - vals[i] > TAU for j in nb[i]):
                 ctx.broke("link", "Unimodal hypothesis of hillClimb_global",
-                          "vertex %d (value %r, max %r) has no neighbour better by more than tau" % (i, vals[i], best),
+                          "vertex %d (value %r, max %r) has no neighbour better by more than tau=%r for d=%s" % (
+                              i, float(vals[i]), float(best), float(TAU), d),
                           job.seed())
                 return
 
@@ -1649,7 +1738,7 @@ def correspondence(ctx):
     rng = ctx.rng
     ctx.extra.setdefault("ties", 0)
     chunk = 500
-    for stream, n in (("L", ctx.budget(230, 4600)), ("G", ctx.budget(230, 4600))):
+    for stream, n in (("L", ctx.budget(700, 10000)), ("G", ctx.budget(700, 10000))):
         run = Runner(ctx, stream)
         if stream == "L":
             for fn, ids in EXPECTED_BRANCHES.items():
@@ -1661,9 +1750,11 @@ def correspondence(ctx):
                         if job is not None:
                             job.stream = "L"
                             run.add(job)
-        add_aux_cases(run, rng, stream, ctx.budget(40, 800))
+        add_aux_cases(run, rng, stream, ctx.budget(120, 2400))
         for i, job in enumerate(stream_jobs(ctx, stream, n)):
             run.add(job)
+            if base_of(job.spec)[0]["kind"] == "mesh":
+                add_lean_mesh_checks(run, job)
             if job.exact and base_of(job.spec)[0]["kind"] == "mesh":
                 check_unimodal(ctx, job)
             if (i + 1) % chunk == 0:
@@ -1672,6 +1763,7 @@ def correspondence(ctx):
     run = Runner(ctx, "M")
     for job in malformed_jobs(ctx):
         run.add(job)
+        add_lean_mesh_checks(run, job)
     malformed_aux(run, ctx)
     run.run()
     # coverage steering: aim at branch ids with few hits
@@ -1731,7 +1823,7 @@ def aux_oracle(seed):
 
 def search(ctx):
     rng = ctx.rng
-    n = ctx.budget(500, 10000) * (3 if ctx.extra.get("search_boost") else 1)
+    n = ctx.budget(2500, 40000) * (3 if ctx.extra.get("search_boost") else 1)
     sweep = 200
     kinds = BASE_KINDS + ["mesh", "mesh", "cone", "cylinder", "capsule"]
     notes = {}
